@@ -406,7 +406,8 @@ func (c *c03) authorize(ch *kernel.Chooser) string {
 	if ch.Bool(1, 6) {
 		k := ch.Range(1, 3)
 		fired := false
-		kindF := []string{world.FaultError, world.FaultTimeout}[ch.Int(2)]
+		// a plain error, a time-out, or an OAuth error of the storage's own (one reused value, a wrapped one, a cancellation)
+		kindF := []string{world.FaultError, world.FaultTimeout, world.FaultSentinel, world.FaultWrapped, world.FaultCanceled}[ch.Int(5)]
 		w.Store.Inject = func(n int, method string, rid int) string {
 			if n == k && !fired {
 				fired = true
